@@ -68,7 +68,7 @@ Definition olist_eqb (a b : list (option (list Z))) : bool :=
 Definition stream_ok (c : cfg) (ops : list op) (outs : list tick_out) (s : Z) : bool :=
   olist_eqb (map (out_for s) outs) (fast_stream c s fs_init ops).
 
-Definition api_stream_code (cs : api_case) : nat :=
+Definition api_stream_code (cs : api_case3) : nat :=
   let '((sz, skip, mx), ops, outs) := cs in
   match to_ops ops with
   | None => 0%nat
@@ -79,7 +79,9 @@ Definition api_stream_code (cs : api_case) : nat :=
       else 13%nat
   end.
 
-Definition api_stream_failures (cases : list api_case) : list (Z * Z) := codes api_stream_code cases 0.
+(* a case carries the option list; the specification is evaluated for the configured values *)
+Definition api_stream_failures (cases : list api_case) : list (Z * Z) :=
+  codes (fun c => api_stream_code (conf3 c)) cases 0.
 
 (* ---- the checker decides the Prop-level statement ---- *)
 
